@@ -173,7 +173,13 @@ def spawn_default(run, f):
             elif k1 == k2 and k1[0] == "callv" and k1[1].startswith(ATOMIC) and k1[1].endswith("::load") and {p1, p2} == {True, False} and model and model[0] == "atomic":
                 # `match CELL.load() { 0 => D, n => n }`: one load; "is it non-zero" decides, the non-zero value itself is passed on
                 a_ = k1[2][0] if k1[2] else ("?",)
-                a_ = a_[1] if a_[0] == "ref" else a_
+                for _ in range(4):      # `&CELL` or, behind a private newtype, `&CELL.0`
+                    if a_[0] == "ref":
+                        a_ = a_[1]
+                    elif a_[0] == "field":
+                        a_ = a_[2]
+                    else:
+                        break
                 st = a_[1] if a_[0] == "static" else None
                 vs = {p: v for (c, v) in ent for (k, p) in c}
                 dflt = vs[False]
